@@ -10,7 +10,7 @@ def lockSites : List LockSite := [
   ⟨"converged_charging.go:ChargingDataCreate:ue.CULock", 1, 0, 0, 0⟩,
   ⟨"converged_charging.go:ChargingDataRelease:ue.CULock", 0, 0, 0, 0⟩,
   ⟨"converged_charging.go:ChargingDataUpdate:ue.CULock", 0, 0, 0, 0⟩,
-  ⟨"converged_charging.go:NotifyRecharge:ue.CULock", 2, 101, 0, 0⟩
+  ⟨"converged_charging.go:NotifyRecharge:ue.CULock", 2, 0, 0, 0⟩
 ]
 
 end Chf.Gen
